@@ -639,7 +639,12 @@ DIV_RULES["C10"] = div_accepts({"a.process", "a.checktx", "tx.generic", "tx.hash
 def div_c09(w):
     k = w["op"].split(" ")[1]
     if k == "a.end":     # committed although the model (engine_fault_not_committed) does not commit
-        return crit(w["impl"]).startswith("ok") and crit(w["model"]).startswith("halt")
+        if crit(w["impl"]).startswith("ok") and crit(w["model"]).startswith("halt"):
+            return True
+        # every operation before this one agreed, so both sides record the same head: a committed block at whose end the
+        # engine was told anything but that head (its parent as safe and finalised block) breaks the property as stated
+        ei, em = re.search(r"eng=(\S+)", crit(w["impl"])), re.search(r"eng=(\S+)", crit(w["model"]))
+        return bool(crit(w["impl"]).startswith("ok") and ei and em and ei.group(1) != em.group(1))
     if k == "tx.ethblock":   # the head moved by a payload the model refuses (head_only_by_child)
         return crit(w["impl"]) == "ok" and crit(w["model"]) != "ok"
     if k == "dump.goat":
